@@ -19,6 +19,7 @@
 package grpcsync
 
 import (
+	"google.golang.org/grpc/internal/verifhook"
 	"sync/atomic"
 
 	"google.golang.org/grpc/grpclog"
@@ -80,6 +81,7 @@ func (rc *RefCounted[T]) TryIncrement() bool {
 		if count <= 0 {
 			return false // Already dead or dying
 		}
+		verifhook.Point("refcounted.tryInc.afterLoad")
 		if rc.refCount.CompareAndSwap(count, count+1) {
 			return true
 		}
